@@ -89,3 +89,23 @@ fn d19_arrow_without_result() {
     println!("{:?}", r.as_ref().map(|_| "accepted").map_err(|e| e.to_string()));
     assert!(r.is_err(), "`func() ->` without a result type must be rejected");
 }
+
+// D21: a type declared in an interface/world under the name of a function export/import of the same scope:
+// the duplicate is not diagnosed and the resolver's `assert!(prev.is_none(), "duplicate type in scope")` fires
+#[test]
+fn d21_type_named_like_a_function_in_the_same_scope() {
+    for src in [
+        "package test:doc;\ninterface i { f: func(); type f = u32; }\n",
+        "package test:doc;\nworld w { import f: func(); type f = u32; }\n",
+        "package test:doc;\ninterface i { f: func(); record f { a: u8 } }\n",
+        "package test:doc;\ninterface i { r: func(); resource r; }\n",
+        "package test:doc;\nworld w { import f: interface {}; enum f { a } }\n",
+    ] {
+        let doc = wac_parser::Document::parse(src).unwrap();
+        let r = std::panic::catch_unwind(std::panic::AssertUnwindSafe(|| doc.resolve(Default::default()).map(|_| ()).map_err(|e| e.to_string())));
+        match r {
+            Ok(v) => println!("{src:?} -> {v:?}"),
+            Err(_) => panic!("resolve panicked on {src:?}"),
+        }
+    }
+}
